@@ -999,6 +999,8 @@ func (s *Sim) checkRevisions(v *recView) {
 			if r := v.listedFirst[c.Name]; r != nil {
 				if ref := controllerOf(r); ref != nil && ref.UID != set.UID {
 					s.violate("C10", "C10.foreign-touched", "revision-renumber", fmt.Sprintf("renumbered revision %s which is controlled by %s %s", c.Name, ref.Kind, ref.UID))
+				} else if ref == nil {
+					s.violate("C10", "C10.foreign-touched", "revision-renumber-orphan", fmt.Sprintf("renumbered revision %s which the set has not adopted", c.Name))
 				}
 			} else {
 				s.violate("C10", "C10.foreign-touched", "revision-renumber-unlisted", fmt.Sprintf("renumbered revision %s which was not listed", c.Name))
@@ -1030,6 +1032,17 @@ func (s *Sim) checkRevisions(v *recView) {
 	} else if applied, err := statefulset.ApplyRevision(set, upd); err != nil || templateContent(&applied.Spec.Template) != v.tmpl {
 		s.violate("C08", "C08.update-revision-mismatch", "apply", fmt.Sprintf("applying updateRevision %s to the set does not reproduce its template (err=%v)", upd.Name, err))
 	}
+	createdByName := false // reached through create -> AlreadyExists -> equal data, not picked from the listing
+	for _, c := range rec.Calls[rec.CtlCallIdx:] {
+		if c.Kind == KRev && c.Verb == "create" && c.Name == upd.Name {
+			createdByName = true
+		}
+	}
+	if r := v.listedFirst[upd.Name]; r != nil && !createdByName {
+		if ref := controllerOf(r); ref == nil {
+			s.violate("C10", "C10.foreign-touched", "update-revision-orphan", fmt.Sprintf("status.updateRevision %s is a revision the set has not adopted (another set may adopt it)", upd.Name))
+		}
+	}
 	// rollback re-use: the update revision carries the highest revision number
 	// (only meaningful when it is part of this set's own history)
 	updMember := true
@@ -1040,7 +1053,7 @@ func (s *Sim) checkRevisions(v *recView) {
 		if !updMember {
 			break
 		}
-		if ref := controllerOf(r); ref != nil && ref.UID != set.UID {
+		if ref := controllerOf(r); ref == nil || ref.UID != set.UID {
 			continue // not part of this set's history
 		}
 		if r.Name != upd.Name && r.Revision > upd.Revision {
@@ -1113,9 +1126,10 @@ func (s *Sim) checkTruncation(v *recView) {
 	}
 	var unused []*appsv1.ControllerRevision
 	member := func(r *appsv1.ControllerRevision) bool {
-		// the set's history: revisions it controls, and orphans it may adopt
+		// the set's history in the control phase: revisions it controls (orphans are
+		// adopted before, or left for the next reconcile)
 		ref := controllerOf(r)
-		return ref == nil || ref.UID == set.UID
+		return ref != nil && ref.UID == set.UID
 	}
 	for _, r := range v.listed {
 		if member(r) && !live[r.Name] {
@@ -1157,8 +1171,11 @@ func (s *Sim) checkTruncation(v *recView) {
 			r = r2
 		}
 		if !member(r) {
-			ref := controllerOf(r)
-			s.violate("C13", "C13.delete-foreign", "other-owner", fmt.Sprintf("deleted revision %s controlled by %s/%s", c.Name, ref.Kind, ref.UID))
+			if ref := controllerOf(r); ref != nil {
+				s.violate("C13", "C13.delete-foreign", "other-owner", fmt.Sprintf("deleted revision %s controlled by %s/%s", c.Name, ref.Kind, ref.UID))
+			} else {
+				s.violate("C13", "C13.delete-foreign", "orphan", fmt.Sprintf("deleted revision %s which the set has not adopted", c.Name))
+			}
 			continue
 		}
 		if live[c.Name] {
